@@ -37,8 +37,8 @@ def run(tier, seed, replay=None):
         states += g.distinct
         trans += g.generated
     v = vlib.Verdict(PROP)
-    n = 600 if quick else 6000
-    chunks = 2 if quick else 8
+    n = 600 if quick else 60000
+    chunks = 2 if quick else 16
     ncalls = nscen = nbatched_selects = nplain_selects = 0
     distinct = set()
     samples = []
